@@ -43,12 +43,28 @@ structure Cfg where
   matchEmpty : Bool := false
   /-- `insert([{},{},…])` pads with as many rows as there are dicts (the pinned code pads one) -/
   dictLen : Bool := false
+  /-- P13 `insert` into an indexed table looks at the new rows and sorts again if they are out of index
+  order (drops the index if they cannot be ordered) -/
+  resortInsert : Bool := false
+  /-- a probe that cannot be ordered against an indexed column: the `TypeError` of the bisection is
+  caught and the keyword answered by the scan -/
+  bisectFallback : Bool := false
+  /-- `!in` marks the ends of the sorted probes with a private object instead of `None` -/
+  notinSentinel : Bool := false
+  /-- `match` is decided cell by cell (`matchCell`) instead of from the first cell of the column -/
+  matchPerCell : Bool := false
   deriving Repr, DecidableEq
 
 def Cfg.unfixed : Cfg := {}
-def Cfg.fixed : Cfg :=
+/-- the tree after the first eight repairs (coba 5728f9e) -/
+def Cfg.committed : Cfg :=
   { dedupIn := true, notinKey := true, localOp := true, guardEmpty := true, dedupIdx := true,
     missingLe := true, missingGe := true, matchEmpty := true, dictLen := true }
+/-- the tree with every repair of `fixes/C17-*.diff` -/
+def Cfg.fixed : Cfg :=
+  { dedupIn := true, notinKey := true, localOp := true, guardEmpty := true, dedupIdx := true,
+    missingLe := true, missingGe := true, matchEmpty := true, dictLen := true,
+    resortInsert := true, bisectFallback := true, notinSentinel := true, matchPerCell := true }
 
 /-- a table cell; strings are lists of code points -/
 inductive Cell
@@ -425,7 +441,7 @@ def dictsToCols (ds : List (List (Nat × Cell))) : List (Nat × List Cell) :=
   (dedupNat (ds.flatMap (fun d => d.map (·.1)))).map (fun k => (k, ds.map (fun d => assocGet d k)))
 
 /-- `Table.insert` (only on tables that own their data) -/
-def Table.insert (cfg : Cfg) (t : Table) (d : InsertData) : Except Err Table :=
+def Table.insertRaw (cfg : Cfg) (t : Table) (d : InsertData) : Except Err Table :=
   match d with
   | .rows [] => .ok t
   | .dicts [] => .ok t
@@ -443,6 +459,43 @@ def Table.insert (cfg : Cfg) (t : Table) (d : InsertData) : Except Err Table :=
         match cols.find? (fun c => c.1 == p.1) with
         | some c => (p.1, p.2 ++ (r :: rs).map (fun row => row.getD c.2 .missing))
         | Option.none => p) }
+
+def InsertData.isEmpty : InsertData → Bool
+  | .rows rs => rs.isEmpty
+  | .dicts ds => ds.isEmpty
+  | .cols cs => cs.isEmpty
+
+/-- outcome of comparing two rows / a run of rows on the index columns with `<` only -/
+inductive Ord3
+  | le | gt | cannot
+  deriving DecidableEq, Repr
+
+/-- the inner loop of `_in_index_order` for rows `i` (earlier) and `j`:
+`if col[i] < col[j]: break` / `if col[j] < col[i]: return False` / `except TypeError: return None` -/
+def rowOrd : List (List Cell) → Nat → Nat → Ord3
+  | [], _, _ => .le
+  | c :: rest, i, j =>
+    match pyLt (cellAt c i) (cellAt c j) with
+    | .error _ => .cannot
+    | .ok true => .le
+    | .ok false =>
+      match pyLt (cellAt c j) (cellAt c i) with
+      | .error _ => .cannot
+      | .ok true => .gt
+      | .ok false => rowOrd rest i j
+
+/-- `for i in range(start+1, len(self))`: `k` rows still to look at, the next one is `i` -/
+def tailOrd (cols : List (List Cell)) : Nat → Nat → Ord3
+  | 0, _ => .le
+  | k + 1, i =>
+    match rowOrd cols (i - 1) i with
+    | .le => tailOrd cols k (i + 1)
+    | o => o
+
+/-- `_in_index_order(start)` -/
+def Table.inIndexOrder (t : Table) (start : Nat) : Ord3 :=
+  let n := match t.len with | .ok n => n | .error _ => 0
+  tailOrd (t.indexes.map (fun c => match lookupCol t.data c with | .ok b => b | .error _ => [])) (n - (start + 1)) (start + 1)
 
 /-! ### index -/
 
@@ -505,6 +558,25 @@ def Table.index (cfg : Cfg) (t : Table) (indx : List Nat) : Except Err Table :=
       | .error e => .error e
       | .ok (data, perm) =>
         .ok { t with data := permuteOthers (effIndex cfg t indx) perm data, indexes := effIndex cfg t indx }
+
+/-- `Table.insert`: the rows are appended (`insertRaw`); with the repair an indexed table then looks
+at the rows from the last old one on: still in index order → nothing to do; out of order → sort
+again (`index`), and if that raises `TypeError` restore the lists and drop the index; not
+comparable → drop the index -/
+def Table.insert (cfg : Cfg) (t : Table) (d : InsertData) : Except Err Table :=
+  match t.insertRaw cfg d with
+  | .error e => .error e
+  | .ok t' =>
+    if cfg.resortInsert && !d.isEmpty && !t'.indexes.isEmpty then
+      match t'.inIndexOrder ((match t.len with | .ok n => n | .error _ => 0) - 1) with
+      | .le => .ok t'
+      | .cannot => .ok { t' with indexes := [] }
+      | .gt =>
+        match Table.index cfg { t' with indexes := [] } t'.indexes with
+        | .ok t'' => .ok t''
+        | .error .typeError => .ok { t' with indexes := [] }
+        | .error e => .error e
+    else .ok t'
 
 /-! ### where -/
 
@@ -612,12 +684,28 @@ def scanFilter (lo : Nat) (col : List Cell) (test : Cell → Except Err Bool) : 
       | .error e => .error e
       | .ok rest => .ok (if b then lo :: rest else rest)
 
+/-! ## `match`, cell by cell -/
+
+/-- what `match` means for one cell, whatever else is in the column: a number matches a number
+when equal, a string when it contains the number between non-digits; a pattern (literal, no
+metacharacters) matches when `str(cell)` contains it; `None` / `Missing` never match -/
+def matchCell (arg c : Cell) : Bool :=
+  match c with
+  | .str s => if isNumber arg then numSearch (cellStr arg) true s else litSearch (cellStr arg) s
+  | .int i => if isNumber arg then pyEq (.int i) arg else litSearch (cellStr arg) (intStr i)
+  | .flt q => if isNumber arg then pyEq (.flt q) arg else litSearch (cellStr arg) (fltStr q)
+  | _ => false
+
+/-- all cells strings, or all cells numbers (no `None`, no `Missing`) -/
+def homogB (col : List Cell) : Bool := col.all isStr || col.all isNumber
+
 /-- the regular-expression branches of `_compare` (always on the scan path) -/
 def matchScan (cfg : Cfg) (lo : Nat) (col : List Cell) (arg : Cell) : Except Err (List Nat) :=
   let nonNone (f : Cell → Except Err Bool) : Cell → Except Err Bool :=
     fun c => if c = .none then .ok false else f c
   let needStr (f : List Nat → Bool) : Cell → Except Err Bool :=
     fun c => match c with | .str s => .ok (f s) | _ => .error .typeError
+  if cfg.matchPerCell then scanFilter lo col (fun c => .ok (matchCell arg c)) else
   match col with
   | [] => if cfg.matchEmpty then .ok []
           else if isNumber arg then .error .indexError
@@ -633,8 +721,9 @@ def rangeOf (p : Nat × Nat) : List Nat := List.range' p.1 (p.2 - p.1)
 
 /-- pairs `(v0,v1)` of `zip(arg[0:],arg[1:])` for `arg = [None]+sorted(arg)+[None]`;
 `none` is the sentinel, and a probe that *is* `None` is taken for it (`v0 is None`) -/
-def notinPairs (sorted : List Cell) : List (Option Cell × Option Cell) :=
-  let a : List (Option Cell) := [Option.none] ++ sorted.map (fun c => if c = .none then Option.none else some c) ++ [Option.none]
+def notinPairs (cfg : Cfg) (sorted : List Cell) : List (Option Cell × Option Cell) :=
+  let a : List (Option Cell) := [Option.none] ++
+    sorted.map (fun c => if c = .none && !cfg.notinSentinel then Option.none else some c) ++ [Option.none]
   a.zip (a.drop 1)
 
 /-- `_compare(lo,hi,col,arg,comparison,"bisect")`: ranges of row numbers -/
@@ -648,7 +737,7 @@ def compareBisect (cfg : Cfg) (s : Seq) (lo hi : Nat) (op : Op) (a : ArgV) : Exc
     vs'.mapM (fun v => do let l ← bl v lo hi; let h ← br v lo hi; pure (l, h))
   | .notin, .coll vs => do
     let vs' ← pySorted vs
-    (notinPairs vs').mapM (fun (p : Option Cell × Option Cell) => do
+    (notinPairs cfg vs').mapM (fun (p : Option Cell × Option Cell) => do
       let l ← match p.1 with | Option.none => pure lo | some v0 => br v0 lo hi
       let h ← match p.2 with | Option.none => pure hi | some v1 => bl v1 lo hi
       pure (l, h))
@@ -697,22 +786,39 @@ def resolveArg (cfg : Cfg) (comparison : Option Op) (arg : Arg) : Option Op × O
       (some .notin, some (.notin, .coll [notinStr]))
     else (some op, some (op, a))
 
+/-- the bisect path of one keyword: for every segment of the column's lohis the ranges `_compare` returns -/
+def kwBisect (cfg : Cfg) (s : Seq) (lohis : List (Nat × List (Nat × Nat))) (kw : Nat) (op : Op) (a : ArgV) :
+    Except Err (List Nat) :=
+  match dictGet lohis kw with
+  | .error e => .error e
+  | .ok segs =>
+    match segs.mapM (fun (p : Nat × Nat) => compareBisect cfg s p.1 p.2 op a) with
+    | .error e => .error e
+    | .ok rs => .ok ((rs.flatMap id).flatMap rangeOf)
+
+/-- the scan path of one keyword: `_compare(0,len(self),col,…,"foreach")` -/
+def kwScan (cfg : Cfg) (s : Seq) (n : Nat) (op : Op) (a : ArgV) : Except Err (List Nat) :=
+  match s.toList with
+  | .error e => .error e
+  | .ok col => compareScan cfg (col.take n) op a
+
 /-- the rows one keyword contributes: the body of `for kw,arg in kwargs.items()` given the value
 `comparison` has when the keyword is reached -/
 def kwHere (cfg : Cfg) (t : Table) (lohis : List (Nat × List (Nat × Nat))) (n : Nat)
-    (comparison : Option Op) (kw : Nat) (arg : Arg) : Except Err (List Nat) := do
-  let s ← t.col kw
-  match arg, (resolveArg cfg comparison arg).2 with
-    | .fn p, _ => do let col ← s.toList; scanFilter 0 col (fun c => .ok (p.eval c))
+    (comparison : Option Op) (kw : Nat) (arg : Arg) : Except Err (List Nat) :=
+  match t.col kw with
+  | .error e => .error e
+  | .ok s =>
+    match arg, (resolveArg cfg comparison arg).2 with
+    | .fn p, _ => (match s.toList with | .error e => .error e | .ok col => scanFilter 0 col (fun c => .ok (p.eval c)))
     | _, some (op, a) =>
-      if t.indexes.contains kw && op ≠ .mtch then do
-        let segs ← dictGet lohis kw
-        let rs ← segs.mapM (fun (p : Nat × Nat) => compareBisect cfg s p.1 p.2 op a)
-        pure ((rs.flatMap id).flatMap rangeOf)
-      else do
-        let col ← s.toList
-        let col' := col.take n
-        compareScan cfg col' op a
+      if t.indexes.contains kw && op ≠ .mtch then
+        match kwBisect cfg s lohis kw op a with
+        | .error .typeError =>
+          -- `except TypeError`: answer as without an index (only with the repair)
+          if cfg.bisectFallback then kwScan cfg s n op a else .error .typeError
+        | r => r
+      else kwScan cfg s n op a
     | _, Option.none => .error .other
 
 /-- the selection built by the `for kw,arg in kwargs.items()` loop; `comparison` is threaded
@@ -1191,20 +1297,26 @@ def samePrefix (ks : List Nat) (r s : List Cell) : Bool := !(lexLt ks r s) && !(
 
 def groupbyS (ks : List Nat) (rows : List (List Cell)) : List (List (List Cell)) := runsBy (samePrefix ks) rows
 
-/-! ## `match`, cell by cell -/
+/-- `K d x`: key of original row `x` in column `d`; lexicographic `<` over the columns `ds` -/
+def lexLtK (K : Nat → Nat → Key) : List Nat → Nat → Nat → Bool
+  | [], _, _ => false
+  | d :: ds, x, y => if (K d x).lt (K d y) then true else if (K d y).lt (K d x) then false else lexLtK K ds x y
 
-/-- what `match` means for one cell, whatever else is in the column: a number matches a number
-when equal, a string when it contains the number between non-digits; a pattern (literal, no
-metacharacters) matches when `str(cell)` contains it; `None` / `Missing` never match -/
-def matchCell (arg c : Cell) : Bool :=
-  match c with
-  | .str s => if isNumber arg then numSearch (cellStr arg) true s else litSearch (cellStr arg) s
-  | .int i => if isNumber arg then pyEq (.int i) arg else litSearch (cellStr arg) (intStr i)
-  | .flt q => if isNumber arg then pyEq (.flt q) arg else litSearch (cellStr arg) (fltStr q)
-  | _ => false
+/-- key of the `x`-th row the table shows, in column `d` -/
+def Kt (t : Table) (d x : Nat) : Key := (cellAt (t.vcol d) x).key
 
-/-- all cells strings, or all cells numbers (no `None`, no `Missing`) -/
-def homogB (col : List Cell) : Bool := col.all isStr || col.all isNumber
+/-- the cells of every index column are mutually comparable and not `None` -/
+def idxCellsOKB (t : Table) (N : Nat) : Bool :=
+  t.indexes.all (fun d => allIn 0 (t.m N) (fun x => Kt t d x != Key.none &&
+    allIn 0 (t.m N) (fun y => (Kt t d x).comparable (Kt t d y))))
+
+/-- `Indexed` as a check -/
+def indexedB (t : Table) (N : Nat) : Bool :=
+  decide t.indexes.Nodup && t.indexes.all (fun d => isOk (lookupCol t.data d)) &&
+  allIn 0 (t.m N) (fun j => allIn 0 (t.m N) (fun i => !(decide (i < j)) || !(lexLtK (Kt t) t.indexes j i))) &&
+  t.indexes.all (fun d => allIn 0 (t.m N) (fun x => Kt t d x != Key.none &&
+    allIn 0 (t.m N) (fun y => (Kt t d x).comparable (Kt t d y))))
+
 
 /-! ## Linear histories: the refinement `ops_refine` is about these
 
@@ -1249,10 +1361,17 @@ def insertS (columns : List Nat) (R : List (List Cell)) : InsertData → List Na
     | [] => (columns, R)
     | q :: _ => insertColsS columns R cs q.2.length
 
-/-- the specification machine: insert appends the normalised rows, index is the stable lexicographic
-sort by the named columns that exist (once each), where is the plain filter, copy changes nothing -/
-def stepLS (a : AbsT) : LOp → Except Err AbsT
-  | .insert d => .ok { a with columns := (insertS a.columns a.rows d).1, rows := (insertS a.columns a.rows d).2 }
+/-- `insert` as the repaired code means it: the normalised rows are appended; a table that is
+indexed stays in index order (the stable sort leaves rows alone that are in order already) -/
+def insertSpec (cfg : Cfg) (columns indexes : List Nat) (R : List (List Cell)) (d : InsertData) : List Nat × List (List Cell) :=
+  let r := insertS columns R d
+  if cfg.resortInsert && !d.isEmpty && !indexes.isEmpty then (r.1, indexS (idxPositions r.1 indexes) r.2) else r
+
+/-- the specification machine: insert appends the normalised rows (and keeps an indexed table in
+index order when the code does), index is the stable lexicographic sort by the named columns that
+exist (once each), where is the plain filter, copy changes nothing -/
+def stepLS (cfg : Cfg) (a : AbsT) : LOp → Except Err AbsT
+  | .insert d => .ok { a with columns := (insertSpec cfg a.columns a.indexes a.rows d).1, rows := (insertSpec cfg a.columns a.indexes a.rows d).2 }
   | .index cols =>
     let ix := dedupNat (cols.filter (fun c => a.columns.contains c))
     .ok { a with rows := indexS (idxPositions a.columns ix) a.rows, indexes := ix }
@@ -1263,12 +1382,12 @@ def stepLS (a : AbsT) : LOp → Except Err AbsT
   | .whereP p => .ok { a with rows := a.rows.filter p.eval }
   | .copy => .ok a
 
-def runLS : AbsT → List LOp → Except Err AbsT
+def runLS (cfg : Cfg) : AbsT → List LOp → Except Err AbsT
   | a, [] => .ok a
   | a, op :: rest =>
-    match stepLS a op with
+    match stepLS cfg a op with
     | .error e => .error e
-    | .ok a' => runLS a' rest
+    | .ok a' => runLS cfg a' rest
 
 /-- length of the stored lists -/
 def tableN (t : Table) : Nat :=
@@ -1280,9 +1399,15 @@ def tableN (t : Table) : Nat :=
 def insertOKB (t : Table) : Bool :=
   decide (t.sel = Sel.all) && tableOKB t (tableN t) && t.data.all (fun p => t.columns.contains p.1)
 
-/-- hypotheses of `insert_eq_spec`: rows as long as the (distinct) columns; value lists of a mapping
+/-- number of rows an insert brings -/
+def InsertData.size : InsertData → Nat
+  | .rows rs => rs.length
+  | .dicts ds => ds.length
+  | .cols cs => match cs with | [] => 0 | q :: _ => q.2.length
+
+/-- hypotheses of `insertRaw_eq_spec`: rows as long as the (distinct) columns; value lists of a mapping
 equally long; for dict rows without any key the P-empty-dicts repair; at least one column afterwards -/
-def insertWF (cfg : Cfg) (t : Table) (d : InsertData) : Bool :=
+def insertRawWF (cfg : Cfg) (t : Table) (d : InsertData) : Bool :=
   insertOKB t &&
   (match d with
    | .rows rs => !rs.isEmpty && !t.columns.isEmpty && decide t.columns.Nodup && rs.all (fun r => r.length == t.columns.length)
@@ -1291,6 +1416,18 @@ def insertWF (cfg : Cfg) (t : Table) (d : InsertData) : Bool :=
        | q :: _ => cs.all (fun q' => q'.2.length == q.2.length)) && !(t.columns ++ newColsOf t.columns (cs.map (·.1))).isEmpty
    | .dicts ds => !ds.isEmpty && (cfg.dictLen || !(dictsToCols ds).isEmpty)
        && !(t.columns ++ newColsOf t.columns (ds.flatMap (fun d => d.map (·.1)))).isEmpty)
+
+/-- hypotheses of `insert_eq_spec`: those of the append, and - when the code keeps an indexed table
+in index order (P13 repair) - the table is in index order before (always true for a reachable table,
+see `inv_reachable`), its index columns are columns, and the cells of the index columns including the
+new ones can be ordered and are not `None` (otherwise the code drops the index) -/
+def insertWF (cfg : Cfg) (t : Table) (d : InsertData) : Bool :=
+  insertRawWF cfg t d &&
+  (!(cfg.resortInsert && !t.indexes.isEmpty) ||
+    (t.indexes.all (fun c => t.columns.contains c) && indexedB t (tableN t) &&
+     (match t.insertRaw cfg d with
+      | .ok t' => idxCellsOKB t' (tableN t')
+      | .error _ => false)))
 
 /-- the side conditions of one operation of a linear history, on the table it is applied to -/
 def opWF (cfg : Cfg) (t : Table) : LOp → Bool
@@ -1311,6 +1448,81 @@ def WFL (cfg : Cfg) : Table → List LOp → Bool
     (match stepL cfg t op with
      | .ok t' => WFL cfg t' rest
      | .error _ => false)
+
+/-! ## Side conditions that do not look at the state of the index
+
+`opWF` above asks, for a `where` on an indexed column, that the segments `_calc_lohis` finds are
+sorted runs - which is false on a table whose rows went out of index order - and `index` must ask for
+other columns than the current ones.  With the repaired `insert` every table a linear history can
+reach is in index order (`inv_reachable`), so these side conditions only speak about the data: cells
+and probes that can be ordered, no `None`, shapes of the arguments. -/
+
+/-- `KwOKIdx` as a check -/
+def kwOKIdxB (cfg : Cfg) (t : Table) (m : Nat) (pos : Option Op) (kw : Nat × Arg) : Bool :=
+  t.columns.contains kw.1 &&
+  (match kw.2 with | .dict .notin _ => cfg.notinKey | _ => true) &&
+  (match (condOf pos kw).test with
+   | .fn _ => true
+   | .cmp op a =>
+     argShape op a &&
+     (if t.indexes.contains kw.1 then
+        (cfg.guardEmpty || decide (0 < m))
+        && (probesOf a).all (fun v => v.key != Key.none)
+        && (probesOf a).all (fun v => allIn 0 m (fun i => (cellAt (t.vcol kw.1) i).key.comparable v.key))
+        && allComparable (probesOf a)
+        && (op != Op.isin || cfg.dedupIn || distinctKeysB (probesOf a))
+        && (!(op == Op.lt || op == Op.le || op == Op.gt || op == Op.ge) || (probesOf a).all (fun v => v.key != Key.missing))
+      else leGeOKB cfg op a (t.vcol kw.1)))
+
+/-- `whereWF` without the conditions on the lohis -/
+def whereOK (cfg : Cfg) (t : Table) (pos : Option Op) (kws : List (Nat × Arg)) : Bool :=
+  match t.data with
+  | [] => false
+  | (_, b) :: _ =>
+    tableOKB t b.length && !kws.isEmpty && noLeakB cfg kws && kws.all (kwOKIdxB cfg t (t.m b.length) pos)
+
+/-- `indexWF` without "other columns than the current index" -/
+def indexOK (cfg : Cfg) (t : Table) (indx : List Nat) : Bool :=
+  match t.data with
+  | [] => false
+  | (_, b) :: _ =>
+    decide (t.sel = Sel.all) && tableOKB t b.length && !indx.isEmpty && !t.columns.isEmpty
+    && decide (effIndex cfg t indx).Nodup
+    && (effIndex cfg t indx).all (fun d => t.columns.contains d && isOk (lookupCol t.data d) &&
+         allIn 0 b.length (fun x => (cellAt (t.base d) x).key != Key.none &&
+           allIn 0 b.length (fun y => (cellAt (t.base d) x).key.comparable (cellAt (t.base d) y).key)))
+
+/-- `insertWF` without "the table is in index order" -/
+def insertOK (cfg : Cfg) (t : Table) (d : InsertData) : Bool :=
+  insertRawWF cfg t d &&
+  (t.indexes.isEmpty ||
+    (match t.insertRaw cfg d with
+     | .ok t' => idxCellsOKB t' (tableN t')
+     | .error _ => false))
+
+def opOK (cfg : Cfg) (t : Table) : LOp → Bool
+  | .insert d => insertOK cfg t d
+  | .index cols => indexOK cfg t cols
+  | .whereK pos kws => whereOK cfg t pos kws &&
+      (match t.rows with
+       | .ok R => isOk (whereS { columns := t.columns, rows := R } (kws.map (condOf pos)))
+       | .error _ => false)
+  | .whereP _ => (match t.data with | [] => false | (_, b) :: _ => tableOKB t b.length) && !t.columns.isEmpty
+  | .copy => true
+
+/-- every operation of the history meets its data-only side conditions when its turn comes -/
+def OKL (cfg : Cfg) : Table → List LOp → Bool
+  | _, [] => true
+  | t, op :: rest =>
+    opOK cfg t op &&
+    (match stepL cfg t op with
+     | .ok t' => OKL cfg t' rest
+     | .error _ => false)
+
+/-- the invariant as a check: well-formed, the index columns are columns, the rows are in index order -/
+def invB (t : Table) : Bool :=
+  tableOKB t (tableN t) && t.indexes.all (fun c => t.columns.contains c) && indexedB t (tableN t)
+
 
 /-- abstraction: what the table shows -/
 def Table.abs (t : Table) : AbsT :=
